@@ -50,7 +50,11 @@ func genEvolve(h *vh.H, i int) string {
 		case "fields", "oneof":
 			edits = append(edits, &j5sgen.Edit{Kind: "appendfield", FileIdx: c.FileIdx, Path: c.Path, Prop: g.FreshProp(c.Kind == "oneof", k)})
 		case "enum":
-			edits = append(edits, &j5sgen.Edit{Kind: "appendoption", FileIdx: c.FileIdx, Path: c.Path, Option: fmt.Sprintf("ZZ_NEW%d", k)})
+			opt := fmt.Sprintf("ZZ_NEW%d", k)
+			if h.Chance(1, 6) {
+				opt = fmt.Sprintf("ZZ%d_UNSPECIFIED", k) // appended to an empty enum this used to replace the implicit zero value
+			}
+			edits = append(edits, &j5sgen.Edit{Kind: "appendoption", FileIdx: c.FileIdx, Path: c.Path, Option: opt})
 		}
 	}
 	style := uint64(0)
